@@ -2,6 +2,7 @@
 Runs the bounded scenario set of a property on the real code of PYVC_REPO (default /repo); exit 0 = all passed, 1 = failures."""
 import json
 import os
+import signal
 import sys
 import time
 import traceback
@@ -9,6 +10,30 @@ import traceback
 sys.path.insert(0, os.path.dirname(os.path.dirname(os.path.abspath(__file__))))
 
 from sim import scenarios as S      # noqa: E402
+
+
+class Hung(BaseException):
+    """Raised by the watchdog (SIGALRM) inside a scenario that makes no progress in real time: a blocked lock acquire, an await that
+    never completes, an unbounded loop.  BaseException so that no `except Exception` of the code under test swallows it."""
+
+
+HANG_SECONDS = 20
+
+
+def _alarm(signum, frame):
+    raise Hung()
+
+
+def guarded(run, p):
+    signal.signal(signal.SIGALRM, _alarm)
+    signal.setitimer(signal.ITIMER_REAL, HANG_SECONDS)
+    try:
+        return run(p)
+    except Hung:
+        return [S.fail(p, 'the operation hangs: no result and no error within %d s of real time (virtual clock irrelevant)' % HANG_SECONDS,
+                       'a result or an exception', 'still blocked')]
+    finally:
+        signal.setitimer(signal.ITIMER_REAL, 0)
 
 
 def run_prop(prop, budget, max_fail, only_filter=None):
@@ -24,7 +49,7 @@ def run_prop(prop, budget, max_fail, only_filter=None):
                 break
             total += 1
             try:
-                fs = run(p)
+                fs = guarded(run, p)
             except Exception as e:      # noqa
                 fs = [S.fail(p, 'scenario crashed: %r' % (e,), None, traceback.format_exc()[-600:])]
             for f in fs:
@@ -43,7 +68,7 @@ def main():
         rec = json.load(open(a[a.index('--replay') + 1]))
         sc = rec.get('scenario') or rec
         name, p = sc['scenario_of'], sc['params']
-        fs = S.PROPS[name][1](p)
+        fs = guarded(S.PROPS[name][1], p)
         print(json.dumps({'replayed': name, 'params': p, 'failures': fs}, indent=1, default=repr)[:4000])
         print('REPLAY-VIOLATION' if fs else 'REPLAY-PASS')
         return 1 if fs else 0
